@@ -103,6 +103,16 @@ def run(ctx, res):
             mu = bytearray(U.rand_bytes(rng, 0x100, 'uniform'))
             mu[pos * 4:pos * 4 + 4] = rec
             jobs.append(('music', Music, bytes(mu)))
+    # patterns / rows whose only content is one byte, for every byte position of a pattern (two regions cover positions 0..67 twice)
+    for base in (0, 4):
+        sx = bytearray(0x1100)
+        for pid in range(64):
+            sx[pid * 68 + (pid + base) % 68] = rng.randrange(1, 256)
+        jobs.append(('sfx', Sfx, bytes(sx)))
+    sx = bytearray(0x1100)
+    for pid in range(64):
+        sx[pid * 68 + 63] = rng.choice([0x10, 0x70, 0x80, 0x0e, 1, 255])       # only note 31's high byte
+    jobs.append(('sfx', Sfx, bytes(sx)))
     from pico8.game.game import Game
     eg = Game.make_empty_game()
     for kind, cls in (('gfx', Gfx), ('map', Map), ('gff', Gff), ('sfx', Sfx), ('music', Music)):
@@ -223,6 +233,19 @@ def run(ctx, res):
                 res.diff({'op': 'encrows', 'pico': hx(pico)[:40]}, hx(b''.join(bytes(r) for r in rows))[:80], out[0][:80])
             if out[1] != 'ok ' + hx(bytes(back)):
                 res.diff({'op': 'decrows'}, hx(bytes(back))[:80], out[1][:80])
+    # the whole memory image incl. the version byte at 0x8000 (and what follows), in a full-size 160x205 picture
+    for trial in range(ctx.budget(2, 8)):
+        label = [bytearray(rng.getrandbits(8) for _ in range(160 * 4)) for _ in range(205)]
+        pico = bytes(rng.getrandbits(8) for _ in range(0x8000)) + bytes([rng.choice([0, 1, 5, 8, 32, 34, 41, 255])]) + bytes(rng.getrandbits(8) for _ in range(rng.choice([0, 1, 31])))
+        rows = p8png.get_pngdata_from_picodata(pico, label, {'planes': 4})
+        back = p8png.get_picodata_from_pngdata(160, 205, rows, {'planes': 4})
+        res.evaluations += 1
+        res.count('png-full-image')
+        res.nontrivial.add(('png-full', pico[0x8000], len(pico)))
+        if bytes(back[:len(pico)]) != pico:
+            first = next(i for i in range(len(pico)) if back[i] != pico[i])
+            res.fail('C16:png-full:%d' % trial, 'the memory image hidden in a full-size picture does not come back: first difference at 0x%x (the version byte is at 0x8000)' % first,
+                     {'version_byte': pico[0x8000], 'length': len(pico)})
     # fixtures written by PICO-8: same cart as .p8 and .p8.png loads to identical contents
     from pico8.game import file as gfile
     td = os.path.join(REPO, 'tests', 'testdata')
